@@ -59,6 +59,8 @@ public:
     void factorize_from(Index from_k, Index to_m, Index& op_counter) override
     {
         using std::abs;
+        if (to_m <= from_k)
+            SPECTRA_VERIF_EVENT("FacNoop", this, (long long) from_k, (long long) to_m, (long long) m_k);
         using std::sqrt;
 
         if (to_m <= from_k)
@@ -66,6 +68,7 @@ public:
 
         if (from_k > m_k)
         {
+            SPECTRA_VERIF_EVENT("FacThrow", this, (long long) from_k, (long long) to_m, (long long) m_k);
             std::string msg = "Lanczos: from_k (= " + std::to_string(from_k) +
                 ") is larger than the current subspace dimension (= " + std::to_string(m_k) + ")";
             throw std::invalid_argument(msg);
@@ -82,8 +85,13 @@ public:
         m_fac_H.rightCols(m_m - from_k).setZero();
         m_fac_H.block(from_k, 0, m_m - from_k, from_k).setZero();
 
+        SPECTRA_VERIF_EVENT("FacBegin", this, (long long) from_k, (long long) to_m, (long long) m_k, (long long) op_counter);
         for (Index i = from_k; i <= to_m - 1; i++)
         {
+#ifdef SPECTRA_VERIF
+            bool verif_restart_ = false;
+            SPECTRA_VERIF_EVENT_AT_EXIT("FacStep", this, (long long) (i + 1), (long long) verif_restart_, (long long) op_counter);
+#endif
             // If beta = 0, then the next V is not full rank
             // We need to generate a new residual vector that is orthogonal
             // to the current V, which we call a restart
@@ -117,6 +125,9 @@ public:
                 v.noalias() = m_fac_f / m_beta;
             }
 
+#ifdef SPECTRA_VERIF
+            verif_restart_ = restart;
+#endif
             // Whether there is a restart or not, right now the (i+1)-th column of V
             // contains f / ||f||
 
@@ -181,6 +192,7 @@ public:
 
         // Indicate that this is a step-m factorization
         m_k = to_m;
+        SPECTRA_VERIF_EVENT("FacDone", this, (long long) from_k, (long long) to_m, (long long) m_k, (long long) op_counter);
     }
 
     // Apply H -> Q'HQ, where Q is from a tridiagonal QR decomposition
@@ -196,6 +208,7 @@ public:
     {
         decomp.matrix_QtHQ(m_fac_H);
         m_k--;
+        SPECTRA_VERIF_EVENT("CompressH", this, 3, (long long) m_k);
     }
 
     // In some cases we know that H has the form H = [X   e   0],
